@@ -16,28 +16,42 @@ Model: `NrfModel/Net/Api.lean` (`meshLookupAddress`, `meshLookupNodeId`, `lookup
 (`nodeUpdate` on the master), `NrfModel/Mesh/Dhcp.lean` (the table, C16).
 Spec: `NrfModel/Spec/MeshProtocol.lean`.
 
-Status
-* complete (every state, every reply content, every behaviour of the other nodes):
-  `C17_lookup_codes`, `C17_lookup_exchange`, `C17_lookup_master`, `C17_accept`, `C17_level`,
-  `C17_set_order`, `C17_release`, `C17_release_master`, `C17_check_connection`, `C17_send`,
-  `C17_send_terminates`.
-* **partial** — `C17_join_partial` / `C17_join_master_partial`: the two ends of a join are proved for
-  every schedule (what the client has established when `renew_address()` returns an address; that
-  the master's table after a request is C16's allocator applied to the table before), the medium in
-  between — that the poll, the request, the response and the double-check lookup reach the other
-  side of a loss-free closed system unaltered and in time — is not composed in Lean (see the
-  comment at `C17_join_partial`); it is exercised by the correspondence runs of
-  `harness/props/c17.py` (real master and 1..12 real joiners on the simulated medium).
-* closed system, loss-free (last section of this file): every unacknowledged `_write` of a join
-  (`C17_write_unacked_closed`, `C17_receive_pipe0`), the master's `update()` on a request
-  (`C17_leg_master_request_closed`) and the request/response leg end to end for two nodes
-  (`C17_leg_request_closed`) **are** composed; the whole `renew_address()` still is not (missing: poll
-  leg with the 55 ms window, `_begin(a)` on the radio, the acknowledged double-check lookup).
+Status (after the independent review, docs/REVIEW.md)
+* proved for every state, every reply content, every behaviour of the other nodes — but note what kind
+  of statement each is:
+  - *control-flow normal forms* (`nexec (f …) s = <the body of f, case by case>`; the right-hand side
+    still contains the calls it makes): `C17_lookup_codes` (arguments ≥ 0), `C17_lookup_exchange`,
+    `C17_release` (first conjunct), `C17_check_connection`, `C17_send`;
+  - genuine state/table theorems: `C17_lookup_master`, `C17_release_master`, `C17_accept`, `C17_level`,
+    `C17_set_once`, `C17_table_small`, `C17_join_master_partial`, `C17_join_lease` (no existence claimed);
+  - `C17_send_terminates`: the lookup loop of `send()` makes at most six lookups on *this* run (outcome
+    independent of the fuel ≥ 6 and of what stands in the fuel-exhausted branch);
+    `C17_send_loop_error_partial` is the earlier, weaker statement (kept under an honest name);
+  - `C17_join_shape_partial`: what `renew_address()` leaves in the *final* state (address attribute, ID,
+    call placement; the final state is where a double-check lookup returned the ID) — conjunct 4 only
+    says that a state with the stated shape exists, it is **not** tied to the trace of the call;
+  - `C17_lookup_spec`: model = spec (`MeshProtocol.lookupAddress` / `lookupNodeId`) where no exchange is needed.
+* closed system (`runOthers`: one deterministic cooperative schedule — the other node runs `update()`
+  to completion at the caller's next `read()`), loss-free, **two nodes** (master + one joiner):
+  every unacknowledged `_write` of a join (`C17_write_unacked_closed`, `C17_receive_pipe0`), the master's
+  `update()` on a poll / a request (`C17_leg_master_poll_closed`, `C17_leg_master_request_closed`), the
+  poll leg with the 55 ms window (`C17_leg_poll_closed`, `C17_contact_window_closed`, clock clause
+  `C17_idle_read_clock`), the request/response leg (`C17_leg_request_closed`), frames 1–4 composed with
+  the literal fuels (`C17_join_frames_1_4_closed`) **are** proved.
+* **partial**: `C17_request_loop_direct_closed_partial` / `C17_join_direct_closed_partial` — the control
+  flow of `_request_address(0)` down to `return True` with the two unproved legs ((b) `_begin(a)` on the
+  radio, (c) the acknowledged double-check lookup) as hypotheses **about the one state the run
+  produces**; both hypotheses are instantiated on `joinEx` (kernel evaluation for the request loop,
+  compiled evaluation `#guard` for the whole `_request_address(0)` / `renew_address(1500)`).
+* no theorem at all (tie-only, `harness/props/c17.py`): the timeout bound of `renew_address`, delivery
+  of a message sent to the node ID, lookups / release end to end for a connected asker,
+  `check_connection()` ⇔ connected, more than two nodes, concurrent joiners, any other schedule.
 -/
 import NrfProofs.MeshJoinK
 import NrfProofs.C17JoinExample
 import NrfProofs.C17Join2Comp
 import NrfProofs.PySetK
+import NrfProofs.C17SendBound
 import NrfProps.C16
 
 namespace Nrf.Props.C17
@@ -48,20 +62,24 @@ open Nrf.Net hiding nexec nexec_bind nexec_pure nexec_getNode nexec_nowNs nexec_
 
 /-! ## lookups -/
 
-/-- **C17, lookup codes: the answers that need no transmission.**  For every state and argument:
+/-- **C17, lookup codes: the answers that need no transmission** (control-flow normal form).  For
+    every state and every argument `≥ 0` (the model turns the `int` argument into a table key with
+    `Int.toNat`; for a negative argument that is key 0, which Python's `==` would not match — negative
+    arguments are therefore excluded here; they only matter on a table with an ID-0 / address-0 entry,
+    which C16's invariant rules out):
     `lookup_address(0)` is 0; on a node without an address every other ID gives `-2`; on the master
     the answer is the table's (`-2` for an unknown ID); in all three cases **nothing at all
     happens** (no radio traffic, no time, no change of any node) — only a connected non-master node
     asks the master (`C17_lookup_exchange`).  Likewise `lookup_node_id`: `None` gives the node's own
     ID, address 0 gives 0, `-2` without an address, the table on the master. -/
 theorem C17_lookup_codes (s : NetState) :
-    (∀ nodeId : Int, nexec (meshLookupAddress nodeId) s =
+    (∀ nodeId : Int, 0 ≤ nodeId → nexec (meshLookupAddress nodeId) s =
       if nodeId = 0 then (.ok 0, s)
       else match roleAddr (curNode s) with
         | .unassigned => (.ok NOT_ASSIGNED, s)
         | .master => (.ok (tableAddress (curNode s).dhcp nodeId.toNat), s)
         | .connected => nexec (lookup2Master nodeId MESH_ADDR_LOOKUP) s) ∧
-    (∀ address : Option Int, nexec (meshLookupNodeId address) s =
+    (∀ address : Option Int, (∀ a, address = some a → 0 ≤ a) → nexec (meshLookupNodeId address) s =
       match address with
       | none => (.ok ((curNode s).nodeId : Int), s)
       | some a =>
@@ -70,7 +88,7 @@ theorem C17_lookup_codes (s : NetState) :
           | .unassigned => (.ok NOT_ASSIGNED, s)
           | .master => (.ok (tableNodeId (curNode s).dhcp a.toNat), s)
           | .connected => nexec (lookup2Master a MESH_ID_LOOKUP) s) :=
-  ⟨fun id => nexec_meshLookupAddress id s, fun a => nexec_meshLookupNodeId a s⟩
+  ⟨fun id _ => nexec_meshLookupAddress id s, fun a _ => nexec_meshLookupNodeId a s⟩
 
 /-- the same, as the spec's function of role, table and reply: when no exchange is needed -/
 example :
@@ -198,6 +216,59 @@ theorem C17_table_small {t : Mesh.Table} (h : Inv t) : TableSmall t := by
 
 example : TableSmall ([] : Mesh.Table) := C17_table_small Nrf.Proofs.Lease.inv_nil
 
+/-- **C17, lookups without an exchange: model = spec.**  Where no transmission is needed — ID /
+    address 0, no argument, an unassigned asker, the master itself — the model's `lookup_address` /
+    `lookup_node_id` return exactly the value of the spec's `MeshProtocol.lookupAddress` /
+    `lookupNodeId` (NrfModel/Spec/MeshProtocol.lean) for the node's role, its table and the argument,
+    whatever `reply` is, and the state is unchanged.  (For a *connected* asker the spec's value is a
+    function of the reply body; that the reply is the master's table answer is not composed in Lean:
+    `C17_lookup_exchange` and `C17_lookup_master` are the two ends.) -/
+theorem C17_lookup_spec (s : NetState) :
+    (∀ (nodeId : Nat) (reply : Option Bytes), nodeId = 0 ∨ roleAddr (curNode s) ≠ .connected →
+      nexec (meshLookupAddress (nodeId : Int)) s =
+        (.ok (MeshProtocol.lookupAddress (roleAddr (curNode s)) (curNode s).dhcp nodeId reply), s)) ∧
+    (∀ reply : Option Bytes, nexec (meshLookupNodeId none) s =
+        (.ok (MeshProtocol.lookupNodeId (roleId (curNode s)) (curNode s).nodeId (curNode s).dhcp none reply), s)) ∧
+    (∀ (a : Nat) (reply : Option Bytes), a = 0 ∨ roleId (curNode s) ≠ .connected →
+      nexec (meshLookupNodeId (some (a : Int))) s =
+        (.ok (MeshProtocol.lookupNodeId (roleId (curNode s)) (curNode s).nodeId (curNode s).dhcp (some a) reply), s)) := by
+  refine ⟨fun nodeId reply h => ?_, fun reply => ?_, fun a reply h => ?_⟩
+  · rw [(C17_lookup_codes s).1 (nodeId : Int) (Int.natCast_nonneg _)]
+    unfold MeshProtocol.lookupAddress
+    by_cases h0 : nodeId = 0
+    · simp [h0]
+    · have h1 : ¬ ((nodeId : Int) = 0) := by omega
+      simp only [h0, h1, if_false]
+      cases hr : roleAddr (curNode s) with
+      | unassigned => rfl
+      | master => simp only [Int.toNat_natCast]
+      | connected => rcases h with h | h
+                     · exact absurd h h0
+                     · exact absurd hr h
+  · rw [(C17_lookup_codes s).2 none (by intro a h; cases h)]
+    rfl
+  · rw [(C17_lookup_codes s).2 (some (a : Int)) (by intro b hb; cases hb; exact Int.natCast_nonneg _)]
+    unfold MeshProtocol.lookupNodeId
+    by_cases h0 : a = 0
+    · simp [h0]
+    · have h1 : ¬ ((a : Int) = 0) := by omega
+      simp only [h0, h1, if_false]
+      cases hr : roleId (curNode s) with
+      | unassigned => rfl
+      | master => simp only [Int.toNat_natCast]
+      | connected =>
+        rcases h with h | h
+        · exact absurd h h0
+        · exact absurd hr h
+
+/-- on the master `exMaster` (table `[(7, 0o5), (9, 0o4)]`): `lookup_address(7)` is the spec's 0o5,
+    `lookup_node_id(0o4)` the spec's 9, an unknown ID the spec's −2 -/
+example : roleAddr (curNode exMaster) ≠ .connected ∧ roleId (curNode exMaster) ≠ .connected ∧
+    MeshProtocol.lookupAddress (roleAddr (curNode exMaster)) (curNode exMaster).dhcp 7 none = 0o5 ∧
+    MeshProtocol.lookupAddress (roleAddr (curNode exMaster)) (curNode exMaster).dhcp 8 none = -2 ∧
+    MeshProtocol.lookupNodeId (roleId (curNode exMaster)) 0 (curNode exMaster).dhcp (some 0o4) none = 9 := by
+  decide
+
 /-! ## joining: the acceptance test -/
 
 /-- **C17, acceptance.**  Whatever frames arrive and whenever: if the waiting loop of
@@ -251,14 +322,15 @@ example : octLen (val [5, 4, 3]) = 3 ∧ val [5, 4, 3] = 0o345 ∧ child [5] 2 =
 
 /-! ## joining: every responder is tried exactly once -/
 
-/-- **C17, iteration order of the set of responders.**  The model of CPython's `set` (8 slots, probe
+/-- **C17, every responder is tried once** (the conclusion is order-agnostic: it says nothing about
+    *which* order iteration yields, and it is about the set model, not linked to `contactLoop`).  The model of CPython's `set` (8 slots, probe
     `i ← (5i + 1 + perturb) & 7`, `perturb >>= 5`) keeps the invariant `SetInv` (8 slots, no value
     twice, every value reachable by its own probe) under `add`; `add` of a present value changes
     nothing, of a new one makes the set exactly one larger; and after any sequence of insertions as
     `_make_contact` makes them (only while fewer than 4 are held) iteration yields no value twice,
     only inserted values, at most 4 — and **every** inserted value if the set ended with fewer than
     4 (so each responder is tried exactly once). -/
-theorem C17_set_order :
+theorem C17_set_once :
     SetInv (List.replicate 8 none) ∧
     (∀ slots h, SetInv slots → (pySetItems slots).length < 8 → h < 2 ^ 40 →
       SetInv (pySetAdd slots h) ∧
@@ -399,12 +471,56 @@ example (toId deadline f retryDelay : Nat) :
         sendLookupLoop toId deadline f (retryDelay + 10)
       else return some a) := sendLookupLoop_succ toId deadline f retryDelay
 
-/-- **C17, the lookup loop of `send()` ends by its deadline** — for every reply pattern, every
-    behaviour of the other nodes (closed system): started as an existing node on the call stack
-    with the deadline 115 ms ahead, the loop never runs out of its fuel; an exception out of it is
-    one that a `lookup_address()` call itself raised.  (5 + 15 + 25 + 35 + 45 ms of sleeping exceed
-    115 ms, and no call moves a node's clock backwards: at most six lookups.) -/
-theorem C17_send_terminates (toId : Nat) (s : NetState) (g : Good s) (e : PyErr)
+/-- **C17, the lookup loop of `send()` makes at most six lookups** — on *this* run, for every reply
+    pattern, every outcome (`.ok none`, `.ok (some a)`, `.error e`) and every behaviour of the other
+    nodes (closed system included).  Started as an existing node on the call stack with the deadline
+    115 ms ahead, the loop with the model's fuel (1000) has the same outcome — result **and** final
+    state — as `lookupLoopZ z … f 5`: the same loop with any fuel `f ≥ 6` and *any* computation `z` in
+    place of what the loop does when its fuel is used up (in the model: `throw .diverge`).  So the
+    fuel-exhausted branch is never reached and a seventh lookup is never made: 5 + 15 + 25 + 35 + 45 ms
+    of sleeping exceed 115 ms and no call moves a node's clock backwards.  (With `z := pure none`,
+    `f := 6`: an `.error e` — `.diverge` included — out of the loop was raised inside one of the at
+    most six `lookup_address()` calls of this run, never by the loop itself.)  Not claimed: a bound on
+    the time one `lookup_address()` takes (`lookupWait`'s own fuel). -/
+theorem C17_send_terminates (toId : Nat) (s : NetState) (g : Good s) (z : NetM (Option Int)) (f : Nat)
+    (hf : 6 ≤ f) :
+    nexec (sendLookupLoop toId (115 * 1000000 + s.w.clock) 1000 5) s =
+      nexec (lookupLoopZ z (meshLookupAddress toId) (115 * 1000000 + s.w.clock) f 5) s :=
+  sendLookupLoop_six toId s g z f hf
+
+/-- `lookupLoopZ z` is `send()`'s loop with `z` in the fuel-exhausted branch; with `z = throw .diverge`
+    it is the model's loop -/
+example (z : NetM (Option Int)) (look : NetM Int) (deadline f retryDelay : Nat) :
+    lookupLoopZ z look deadline 0 retryDelay = z ∧
+    lookupLoopZ z look deadline (f + 1) retryDelay = (do
+      let a ← look
+      if (← nowNs) ≥ deadline then return none
+      if a < 0 then
+        sleepNs (retryDelay * 1000000)
+        lookupLoopZ z look deadline f (retryDelay + 10)
+      else return some a) ∧
+    sendLookupLoop 9 deadline f retryDelay =
+      lookupLoopZ (throw .diverge) (meshLookupAddress ((9 : Nat) : Int)) deadline f retryDelay :=
+  ⟨by rw [lookupLoopZ], by rw [lookupLoopZ], (sendLookupLoop_eq 9 deadline f retryDelay).trans
+    (lookupLoopG_eq_Z _ deadline f retryDelay)⟩
+
+/-- the hypothesis is satisfiable (a connected mesh node on the call stack), and there the loop with
+    1000 units of fuel is the loop with 6 units that gives up silently -/
+example : let s : NetState := { nodes := [{ kind := .meshNode, nodeId := 9,
+                                            a := { (default : NodeAddr) with addr := 0o5 } }],
+                                active := [0], w := World.fresh 1 }
+    Good s ∧ nexec (sendLookupLoop 7 (115 * 1000000 + s.w.clock) 1000 5) s =
+      nexec (lookupLoopZ (pure none) (meshLookupAddress 7) (115 * 1000000 + s.w.clock) 6 5) s := by
+  intro s
+  have g : Good s := ⟨by decide, by decide⟩
+  exact ⟨g, C17_send_terminates 7 s g (pure none) 6 (by decide)⟩
+
+/-- **C17, errors out of the lookup loop of `send()` (partial — the earlier, weaker statement).**  If the
+    loop started from `s` ends with `.error e`, then *some* well-placed state `s'` exists in which a
+    `lookup_address()` call gives `.error e`.  `s'` is **not** related to the run from `s`, and for
+    `e = .diverge` the statement excludes nothing (a lookup's own waiting loop has fuel too); nothing
+    is said about the `.ok` outcomes.  The run-tied bound is `C17_send_terminates` above. -/
+theorem C17_send_loop_error_partial (toId : Nat) (s : NetState) (g : Good s) (e : PyErr)
     (he : (nexec (sendLookupLoop toId (115 * 1000000 + s.w.clock) 1000 5) s).1 = .error e) :
     ∃ s', Good s' ∧ (nexec (meshLookupAddress toId) s').1 = .error e :=
   sendLookupLoop_ends toId s g e he
@@ -421,42 +537,51 @@ Full statement (not proved as one theorem):
 
 What is proved, for **every** schedule, arrival pattern and timing:
 
-* client (`C17_join_partial`): if `renew_address()` returns `some a`, then `a` is the node's
-  `node_address`, its ID is unchanged, `a` passed the acceptance test for some contact (`C17_accept`:
-  a type-128 frame with `reserved = id` whose body `a` lies below the contact), and a
-  `lookup_node_id(a)` made after `_begin(a)` returned `id` — i.e. (by `C17_lookup_exchange` /
-  `C17_lookup_master`) a reply frame decoded to `id`, which the master sends exactly when its table
-  maps `a` to `id`;
+* client (`C17_join_shape_partial`): if `renew_address()` returns `some a`, then in the final state `a` is
+  the node's `node_address`, its ID is unchanged and the call is still well placed; the final state is
+  the one a `lookup_node_id(a)` call that returned the ID ended in (conjunct 5: the double check was
+  the last thing the call did).  Conjunct 4 is a **shape statement only**: *there is* a state `s1` (not
+  shown to lie on the trace of this call) in which `a` satisfies the acceptance test for some
+  contact.  The lemma behind it (`requestLoop_true`, NrfProofs/MeshJoinK.lean) does walk the trace, but
+  the theorem as stated forgets the connection; tying that witness to the trace needs a ghost-instrumented `responseWait` / `requestLoop` (as NrfProofs/C13Trace.lean does for
+  `ackWait`) — not done.  What the acceptance test itself establishes on a trace is `C17_accept`;
 * master (`C17_join_master_partial`): after `update()` handled a request frame (type 195,
   `reserved = id ≠ 0`) the table is `Mesh.dhcp` of the table before — so `C16_inv`, `C16_single`,
   `C16_child` (`a = via + i·8^level(via)`, valid, ≠ 0, ≠ 0o4444, not leased to another ID) hold
   for it — however the reply's transmission ends.
 
-What remains assumed (not composed in Lean): that in the loss-free closed system the NETWORK_POLL
-multicast is received and answered by the master within the 55 ms window (`C14_receivers`,
-`C14_handle_poll` give the two ends), that the request frame reaches the master's `frame_buf` as
-sent, that the response reaches the joiner's within 225 ms, and that the double-check lookup is
-answered within 135 ms — i.e. the radio-level delivery of these four frames (C01/C02/C05's
-subject) and the responsiveness of the schedule.  Concurrent joiners, POLL-reply timing races and
-packet loss are not quantified at all.
+The medium in between: for **two nodes** in the closed loss-free system frames 1–4 of a direct join are
+composed in Lean (last sections of this file: `C17_leg_poll_closed`, `C17_leg_request_closed`,
+`C17_join_frames_1_4_closed`); `_begin(a)` on the radio and the acknowledged double-check lookup
+(frames 5–6) are not (`C17_join_direct_closed_partial` takes them as hypotheses about the run's own
+state).  More than two nodes, relayed joins, concurrent joiners, POLL-reply timing races, other
+schedules and packet loss are not quantified at all; nor is the `timeout` bound of `renew_address`.
 -/
 
-/-- **C17, join — client side (partial).** -/
-theorem C17_join_partial (id timeoutMs : Nat) (s : NetState) (a : Nat) (s' : NetState)
+/-- **C17, join — client side, shape only (partial).**  If `renew_address(timeout)` of a node that is
+    not the master returns `some a` (from `s` to `s'`), then in `s'`: `node_address = a`, the ID is
+    unchanged, the call is well placed (conjuncts 1–3, about *this* run).  Conjunct 5 is tied to the
+    run at its end: **the final state `s'` is the state in which a `lookup_node_id(a)` call returned
+    the ID** — the double check was the last thing the call did (made from a well-placed state `s2`
+    with this ID and address `a`; that `s2` itself lies on the trace is not stated).  Conjunct 4 is a
+    **shape statement only**, its witnesses are not related to the run `s → s'`: some state `s1`
+    exists in which `a` is `Accepted` for some contact by a node with this ID — not that `a` passed
+    the acceptance test on this trace (what the test establishes on a trace is `C17_accept`). -/
+theorem C17_join_shape_partial (id timeoutMs : Nat) (s : NetState) (a : Nat) (s' : NetState)
     (g : Good s) (hid : (curNode s).nodeId = id)
     (hnm : ¬ ((curNode s).kind = .meshMaster ∧ (curNode s).nodeId = 0))
     (h : nexec (meshRenew timeoutMs) s = (.ok (some a), s')) :
     (curNode s').a.addr = a ∧ (curNode s').nodeId = id ∧ Good s' ∧
     (∃ contact s1, Accepted contact a s1 ∧ (curNode s1).nodeId = id) ∧
-    (∃ s2 s3, Good s2 ∧ (curNode s2).nodeId = id ∧ (curNode s2).a.addr = a ∧
-      nexec (meshLookupNodeId (some (a : Int))) s2 = (.ok (id : Int), s3)) := by
+    (∃ s2, Good s2 ∧ (curNode s2).nodeId = id ∧ (curNode s2).a.addr = a ∧
+      nexec (meshLookupNodeId (some (a : Int))) s2 = (.ok (id : Int), s')) := by
   obtain ⟨h1, h2, h3⟩ := meshRenew_some id timeoutMs s a s' ⟨g, hid⟩ hnm h
   refine ⟨h2, h1.id, h1.good, ?_, ?_⟩
   · rcases h3.accepted with h4 | h4
     · exact h4
     · cases h4
-  · obtain ⟨s2, s3, hs2, ha2, hl⟩ := h3.confirmed
-    exact ⟨s2, s3, hs2.good, hs2.id, ha2, hl⟩
+  · obtain ⟨s2, hs2, ha2, hl⟩ := h3.confirmed
+    exact ⟨s2, hs2.good, hs2.id, ha2, hl⟩
 
 /-- the hypotheses on the state are satisfiable (a mesh node with ID 9 on the call stack); that
     `renew_address()` does return an address is witnessed by the correspondence runs: on
@@ -492,7 +617,9 @@ theorem C17_join_master_partial (f : Nat) (s : NetState) (g : Good s)
     the unassigned address or a relay of level 0..3, then after `update()` — however the reply's
     transmission ends — the table satisfies the invariant again: the address recorded for the ID
     is a valid logical address, not 0, not 0o4444, the ID's only lease, and **no other ID holds
-    it**. -/
+    it**.  **No existence is claimed**: the second conjunct is about every lease the table has under
+    the ID afterwards — with a full level (`_dhcp` finds no free slot) there is none and it is
+    vacuous; that a lease *is* recorded is `C17_leg_master_request_closed` (`dhcpFind … = some a`). -/
 theorem C17_join_lease (f : Nat) (s : NetState) (g : Good s)
     (hk : (curNode s).kind = .meshMaster) (hid : (curNode s).nodeId = 0)
     (hr : (curNode s).frameBuf.header.reserved ≠ 0) (hr8 : (curNode s).frameBuf.header.reserved ≤ 255)
@@ -951,14 +1078,30 @@ with the master's table `Mesh.setAddress t i a` and the joiner's address attribu
 listening.  No lower bound on `timeout` is needed: `renew_address` tries `_request_address(0)` before it
 looks at the clock, and in the loss-free two-node system that first attempt succeeds.  Proved below:
 frames 1–4 with the model's literal fuels (`C17_join_frames_1_4_closed`), and the control flow of
-`_request_address(0)` down to `return True` given the two remaining legs as hypotheses about the model
-(`C17_join_direct_closed_partial`): (b) `_begin(a)` on the radio from the state `AfterRequest` — total,
-address attribute `a`, ID kept (C07Begin's `n_begin` / `C07_begin` give totality and the register
-effect; what is missing is re-establishing `NodeRadio` for the new six addresses); (c) the acknowledged
-double-check `lookup_node_id(a)` (frames 5–6: `nodeWrite_hop_plain` + `C17_lookup_master` +
-`read_nested2c` + `netUpdate_sys`) returning the ID.  Also open: `renew_address`'s preamble
-(`available()` on the idle radio — one NOP transaction, same argument as `C17_idle_read_clock`) and the
-first iteration of `renewLoop`.
+`_request_address(0)` down to `return True` given the two remaining legs as hypotheses
+(`C17_request_loop_direct_closed_partial` from the state after `_make_contact`,
+`C17_join_direct_closed_partial` from the state before `_request_address(0)`): (b) `_begin(a)` on the
+radio — total, address attribute `a`, ID kept (C07Begin's `n_begin` / `C07_begin` give totality and the
+register effect; what is missing is re-establishing `NodeRadio` for the new six addresses); (c) the
+acknowledged double-check `lookup_node_id(a)` (frames 5–6: `nodeWrite_hop_plain` + `C17_lookup_master` +
+`read_nested2c` + `netUpdate_sys`) returning the ID.
+
+**The two hypotheses speak about the one state the run produces.**  (As first stated they quantified
+over every state satisfying `AfterRequest`, which leaves the radios' `lastRx`, the clocks, `busyUntil`
+and `nextId` free; with the joiner's `lastRx` set to the master's future type-198 reply the lookup
+returns −1 — ESB duplicate —, so the two hypotheses were jointly unsatisfiable and the theorem vacuous:
+docs/REVIEW.md.)  `AfterRequest` now also records both radios' `lastRx` (the master's radio last accepted the
+address REQUEST, the joiner's the address RESPONSE), but it still leaves clocks, `busyUntil`, `nextId` free,
+so the legs are not stated about "every state satisfying `AfterRequest`".  Now `Hb` is about the state `s3` that *this* run's `_make_contact`, request write and
+`_net_update()` end in — `s2`, `sW`, `s3` are determined by `s`, the model being a function — and `Hc`
+about the states satisfying `P4`, which the user of the theorem chooses (`P4 := (· = the state _begin
+ends in)` makes it one state).  Each theorem is followed by a **full instance on `joinEx`**: both
+hypotheses discharged by evaluating the model — for the request loop by the kernel (`decide +kernel`
+on the 4 + 2 frames), for `_request_address(0)` by compiled evaluation (`#guard`; the kernel needs more
+than five minutes for the 5494 idle polls of the 55 ms window and then gives up).
+
+Also open: `renew_address`'s preamble (`available()` on the idle radio — one NOP transaction, same
+argument as `C17_idle_read_clock`) and the first iteration of `renewLoop` (evaluated: `#guard` below).
 -/
 
 namespace Nrf.Props.C17
@@ -1030,14 +1173,103 @@ example : ∃ s2 s3 : NetState, Nrf.Net.nexec (makeContact 0) joinEx = (.ok [0],
   · rw [h.master]; rfl
   · rw [h.joiner]
 
+/-- **C17, closed system: the contact loop of `_request_address` for the single contact 0, partial**
+    (`requestLoop [0] none`, i.e. `_request_address` after `_make_contact` returned `[0]`; two nodes,
+    loss-free).  From a state `s` as the poll leg leaves it (joiner `x`, ID `i`, unassigned, listening,
+    any `frame_buf` whose header id is `fid`; master `m` with `_dhcp`'s candidate loop finding `a`; both
+    RX FIFOs empty; neither radio having just received the very packet about to be sent): frames 3–4
+    are proved (`C17_leg_request_closed`), the control flow of `requestLoop` / `responseWait` with their
+    literal fuels is proved (the response is accepted: type 128, own ID, the offered address lies
+    below contact 0), and **the two unproved legs are hypotheses about the state this run produces**:
+
+    * `Hb` — for the states `sW`, `s3` that the request write and the next `_net_update()` *of this
+      run* end in (determined by `s`; `AfterRequest` is what is proved about `s3`): `_begin(a)` ends
+      normally with address attribute `a`, the ID kept, in a state satisfying `P4`;
+    * `Hc` — from a state satisfying `P4` the double-check `lookup_node_id(a)` returns the ID, in a
+      state satisfying `P5`.
+
+    Then the loop returns `True` in a state satisfying `P5`.  Both hypotheses are true of the model on
+    `joinEx` — the instance below proves them by kernel evaluation. -/
+theorem C17_request_loop_direct_closed_partial (s : NetState) (L : LinkCfg) (Pm Px : List Bytes)
+    (m x fid i a : Nat) (Am Ax pq pq' : Bytes) (P4 P5 : NetState → Prop)
+    (hlen : s.nodes.length = 2) (hm : m < 2) (hx : x < 2) (hmx : m ≠ x)
+    (hcur : s.cur = x) (hact : s.active = [x]) (hclosed : s.closed = true) (hfaults : s.w.faults = [])
+    (hridm : s.ridAt m < s.w.radios.length) (hridx : s.ridAt x < s.w.radios.length)
+    (hridne : s.ridAt m ≠ s.ridAt x)
+    (hNm : NodeRadio L Pm true true 0x3E (s.nodeAt m).rf (s.radioAt m))
+    (hNx : NodeRadio L Px true true 0x3E (s.nodeAt x).rf (s.radioAt x))
+    (hfm : (s.radioAt m).rxFifo = []) (hfx : (s.radioAt x).rxFifo = [])
+    (hdupm : ∀ pid, (s.radioAt m).lastRx ≠ some { pid := pid, addr := Am, data := pq })
+    (hdupx : ∀ pid, (s.radioAt x).lastRx ≠ some { pid := pid, addr := Ax, data := pq' })
+    (harrm : (s.nodeAt m).arrivals = []) (harrx : (s.nodeAt x).arrivals = [])
+    (hAm : Pm[0]? = some Am) (hAx : Px[0]? = some Ax)
+    (hxfid : (s.nodeAt x).frameBuf.header.frameId = fid) (hxid : (s.nodeAt x).nodeId = i)
+    (hxaddr : (s.nodeAt x).a.addr = NETWORK_DEFAULT_ADDR)
+    (hxret : (s.nodeAt x).retSysMsg = true) (hxcfg : pipeAddress (s.nodeAt x).cfg 0 0 = .ok Am)
+    (hkind : (s.nodeAt m).kind = .meshMaster) (hid : (s.nodeAt m).nodeId = 0) (hmaddr : (s.nodeAt m).a.addr = 0)
+    (hmret : (s.nodeAt m).retSysMsg = true) (hdo : (s.nodeAt m).doDhcp = false)
+    (hmcfg : pipeAddress (s.nodeAt m).cfg NETWORK_DEFAULT_ADDR 0 = .ok Ax)
+    (hfind : dhcpFind (s.nodeAt m).dhcp i 0 0 (Mesh.MESH_MAX_CHILDREN + 1) = some a) (ha : a < 65536)
+    (hi0 : i ≠ 0) (hi : i ≤ 255) (hfid : fid < 65536)
+    (hpq : (reqFrame fid i 0).pack = .ok pq) (hpq' : (respFrame fid i a).pack = .ok pq')
+    (Hb : ∀ sW s3, Nrf.Net.nexec (nodeWrite F 0 TX_PHYSICAL) (s.withFrame (reqFrame fid i 0)) = (.ok true, sW) →
+      Nrf.Net.nexec (netUpdate F 0) sW = (.ok MESH_ADDR_RESPONSE, s3) → AfterRequest s L Pm Px m x fid i a s3 →
+      ∃ s4, Nrf.Net.nexec (begin a) s3 = (.ok (), s4) ∧ s4.node.a.addr = a ∧ s4.node.nodeId = i ∧ P4 s4)
+    (Hc : ∀ s4, P4 s4 →
+      ∃ s5, Nrf.Net.nexec (meshLookupNodeId (some (a : Int))) s4 = (.ok (i : Int), s5) ∧ P5 s5) :
+    ∃ s5, Nrf.Net.nexec (requestLoop [0] none) s = (.ok true, s5) ∧ P5 s5 :=
+  request_loop_partial s L Pm Px m x fid i a Am Ax pq pq' P4 P5
+    hlen hm hx hmx hcur hact hclosed hfaults hridm hridx hridne hNm hNx hfm hfx hdupm hdupx harrm harrx hAm hAx
+    hxfid hxid hxaddr hxret hxcfg hkind hid hmaddr hmret hdo hmcfg hfind ha hi0 hi hfid hpq hpq' Hb Hc
+
+/-- the states of this run on `joinEx` (joiner ID 7 inside `_request_address`, master with an empty
+    table): after the request write, after the `_net_update()` that returns 128, after `_begin(0o5)`,
+    after the double-check lookup -/
+def exW : NetState := (Nrf.Net.nexec (nodeWrite F 0 TX_PHYSICAL) (joinEx.withFrame (reqFrame 3 7 0))).2
+def ex3 : NetState := (Nrf.Net.nexec (netUpdate F 0) exW).2
+def ex4 : NetState := (Nrf.Net.nexec (begin 5) ex3).2
+def ex5 : NetState := (Nrf.Net.nexec (meshLookupNodeId (some ((5 : Nat) : Int))) ex4).2
+
+/-- **full instance on `joinEx`** — every hypothesis of `C17_request_loop_direct_closed_partial`,
+    **both legs included**, holds there: `Hb` and `Hc` are proved by evaluating the model in the kernel
+    (`_begin(0o5)` on the state frames 3–4 end in returns normally with address 0o5 and ID 7; the
+    double-check `lookup_node_id(0o5)` from there returns 7 — the master's `update()` runs nested in
+    the joiner's `read()` and answers from its table `[(7, 0o5)]`).  Hence `requestLoop [0] none`
+    returns `True` on `joinEx`, ending in `ex5`.  This example does not compile if either hypothesis
+    is unsatisfiable. -/
+example : ∃ s5, Nrf.Net.nexec (requestLoop [0] none) joinEx = (.ok true, s5) ∧ s5 = ex5 := by
+  obtain ⟨pq, hpq⟩ := pack_ok (reqFrame 3 7 0) MESH_ADDR_REQUEST rfl
+  obtain ⟨pq', hpq'⟩ := pack_ok (respFrame 3 7 5) MESH_ADDR_RESPONSE rfl
+  refine C17_request_loop_direct_closed_partial joinEx Example.L Example.P0 PX 0 1 3 7 5
+    [195, 204, 204, 204, 204] [204, 62, 204, 204, 204] pq pq' (· = ex4) (· = ex5)
+    rfl (by decide) (by decide) (by decide) rfl rfl rfl rfl
+    (by decide) (by decide) (by decide) joinEx_radio0 joinEx_radio1 rfl rfl
+    (by intro pid; rw [show (joinEx.radioAt 0).lastRx = none from rfl]; intro h; cases h)
+    (by intro pid; rw [show (joinEx.radioAt 1).lastRx = none from rfl]; intro h; cases h)
+    rfl rfl rfl rfl rfl rfl rfl rfl pa0 rfl rfl rfl rfl rfl pa4444 (by decide) (by decide) (by decide) (by decide)
+    (by decide) hpq hpq' ?_ ?_
+  · -- `Hb` on the run's own state
+    intro sW s3 eW eN _
+    have hW : sW = exW := (congrArg Prod.snd eW).symm
+    subst hW
+    have h3 : s3 = ex3 := (congrArg Prod.snd eN).symm
+    subst h3
+    exact ⟨ex4, Prod.ext (isOkUnit_eq (by decide +kernel)) rfl, by decide +kernel, by decide +kernel, rfl⟩
+  · -- `Hc` on the state `_begin` ended in
+    intro s4 h4
+    subst h4
+    exact ⟨ex5, Prod.ext (isOkInt_eq (by decide +kernel)) rfl, rfl⟩
+
 /-- **C17, closed system: `_request_address(0)` of a direct join, partial** — frames 1–4 proved
     (`C17_join_frames_1_4_closed`), the control flow of `_request_address` / `requestLoop` /
-    `responseWait` with their literal fuels proved (the response is accepted: type 128, own ID, the
-    offered address is below contact 0), and **exactly the two unproved legs as hypotheses about the
-    model**: `Hb` — `_begin(a)` from any state `AfterRequest` ends normally with address attribute
-    `a`, the ID kept, establishing `P4`; `Hc` — the double-check `lookup_node_id(a)` from any state
+    `responseWait` with their literal fuels proved, and **exactly the two unproved legs as hypotheses
+    about the state this run produces**: `Hb` — for the states `s2`, `sW`, `s3` that `_make_contact(0)`,
+    the request write and the next `_net_update()` *of this run* end in (all determined by `s`;
+    `AfterRequest` is what is proved about `s3`), `_begin(a)` ends normally with address attribute
+    `a`, the ID kept, establishing `P4`; `Hc` — the double-check `lookup_node_id(a)` from a state
     satisfying `P4` returns the ID, establishing `P5`.  Then `_request_address(0)` returns `True` in a
-    state satisfying `P5` (so `renew_address` returns the address without looking at its timeout). -/
+    state satisfying `P5` (so `renew_address` returns the address without looking at its timeout).
+    Two nodes, loss-free, the closed `runOthers` schedule. -/
 theorem C17_join_direct_closed_partial (s : NetState) (L : LinkCfg) (Pm Px : List Bytes) (m x fid r i a : Nat)
     (Am Ax pk pk' pq pq' : Bytes) (P4 P5 : NetState → Prop)
     (hlen : s.nodes.length = 2) (hm : m < 2) (hx : x < 2) (hmx : m ≠ x)
@@ -1064,7 +1296,9 @@ theorem C17_join_direct_closed_partial (s : NetState) (L : LinkCfg) (Pm Px : Lis
     (hr : r ≤ 255) (hfid : fid < 65536) (hi0 : i ≠ 0) (hi : i ≤ 255)
     (hpk : (pollFrame fid r).pack = .ok pk) (hpk' : (pollReply fid r 0).pack = .ok pk')
     (hpq : (reqFrame fid i 0).pack = .ok pq) (hpq' : (respFrame fid i a).pack = .ok pq')
-    (Hb : ∀ s3, AfterRequest s L Pm Px m x fid i a s3 →
+    (Hb : ∀ s2 sW s3, Nrf.Net.nexec (makeContact 0) s = (.ok [0], s2) →
+      Nrf.Net.nexec (nodeWrite F 0 TX_PHYSICAL) (s2.withFrame (reqFrame fid i 0)) = (.ok true, sW) →
+      Nrf.Net.nexec (netUpdate F 0) sW = (.ok MESH_ADDR_RESPONSE, s3) → AfterRequest s L Pm Px m x fid i a s3 →
       ∃ s4, Nrf.Net.nexec (begin a) s3 = (.ok (), s4) ∧ s4.node.a.addr = a ∧ s4.node.nodeId = i ∧ P4 s4)
     (Hc : ∀ s4, P4 s4 →
       ∃ s5, Nrf.Net.nexec (meshLookupNodeId (some (a : Int))) s4 = (.ok (i : Int), s5) ∧ P5 s5) :
@@ -1074,21 +1308,49 @@ theorem C17_join_direct_closed_partial (s : NetState) (L : LinkCfg) (Pm Px : Lis
     hxfid hxres hxid hxaddr hxret hxcfg hkind hid hmaddr hmret hmmc hmpar hdo hmcfg hfind ha hr hfid hi0 hi
     hpk hpk' hpq hpq' Hb Hc
 
-/-- the hypotheses other than the two open legs are those of `C17_join_frames_1_4_closed` (satisfied by
-    `joinEx`, above); the premise of `Hb` is reached there (`AfterRequest joinEx …`), and the real
-    code / the model's driver run show both legs succeed on it (`x renew 1500` → 5, six air records) -/
-example : ∃ s3 : NetState, AfterRequest joinEx Example.L Example.P0 PX 0 1 3 7 5 s3 := by
+/-- the states of the whole `_request_address(0)` run on `joinEx`: after `_make_contact(0)` (frames 1–2
+    and the 55 ms window: 5494 idle polls), after the request write, after the `_net_update()` that
+    returns 128, after `_begin(0o5)` -/
+def run2 : NetState := (Nrf.Net.nexec (makeContact 0) joinEx).2
+def runW : NetState := (Nrf.Net.nexec (nodeWrite F 0 TX_PHYSICAL) (run2.withFrame (reqFrame 3 7 0))).2
+def run3 : NetState := (Nrf.Net.nexec (netUpdate F 0) runW).2
+def run4 : NetState := (Nrf.Net.nexec (begin 5) run3).2
+
+/-- **the instance on `joinEx`, part 1 (a proof)**: every hypothesis other than the two legs holds on
+    `joinEx`, and the premises of `Hb` are reached there.  The model being a function, the `s2`, `sW`,
+    `s3` they name can only be `run2`, `runW`, `run3` (by definition the second components of these
+    very `nexec …` terms; the equations are not restated in Lean because the kernel evaluates the 55 ms
+    window when asked to compare them — > 5 min). -/
+example : ∃ s2 sW s3 : NetState, Nrf.Net.nexec (makeContact 0) joinEx = (.ok [0], s2) ∧
+    Nrf.Net.nexec (nodeWrite F 0 TX_PHYSICAL) (s2.withFrame (reqFrame 3 7 0)) = (.ok true, sW) ∧
+    Nrf.Net.nexec (netUpdate F 0) sW = (.ok MESH_ADDR_RESPONSE, s3) ∧
+    AfterRequest joinEx Example.L Example.P0 PX 0 1 3 7 5 s3 := by
   obtain ⟨pk, hpk⟩ := pack_ok (pollFrame 3 7) NETWORK_POLL rfl
   obtain ⟨pk', hpk'⟩ := pack_ok (pollReply 3 7 0) NETWORK_POLL rfl
   obtain ⟨pq, hpq⟩ := pack_ok (reqFrame 3 7 0) MESH_ADDR_REQUEST rfl
   obtain ⟨pq', hpq'⟩ := pack_ok (respFrame 3 7 5) MESH_ADDR_RESPONSE rfl
-  obtain ⟨_, _, s3, _, _, _, _, _, _, h⟩ := C17_join_frames_1_4_closed joinEx Example.L Example.P0 PX
+  obtain ⟨s2, sW, s3, eP, _, _, _, eW, eN, h⟩ := C17_join_frames_1_4_closed joinEx Example.L Example.P0 PX
     0 1 3 7 7 5 [195, 204, 204, 204, 204] [204, 62, 204, 204, 204] pk pk' pq pq' rfl (by decide) (by decide) (by decide)
     rfl rfl rfl rfl (by decide) (by decide) (by decide) joinEx_radio0 joinEx_radio1 rfl rfl
     (by intro pid; rw [show (joinEx.radioAt 0).lastRx = none from rfl]; intro h; cases h)
     (by intro pid; rw [show (joinEx.radioAt 1).lastRx = none from rfl]; intro h; cases h)
     rfl rfl rfl rfl rfl rfl rfl rfl rfl pa0 rfl rfl rfl rfl rfl rfl rfl pa4444 (by decide) (by decide) (by decide)
     (by decide) (by decide) (by decide) hpk hpk' hpq hpq'
-  exact ⟨s3, h⟩
+  exact ⟨s2, sW, s3, eP, eW, eN, h⟩
+
+/-! **the instance on `joinEx`, part 2 (evaluation)**: the conclusions of `Hb` and `Hc` on exactly these
+states, with `P4 := (· = run4)`, checked by compiled evaluation of the model — a `#guard` that
+evaluates to `false` is a compile error, so this file does not build if either leg fails on the run's
+own state.  (Not a kernel proof: the kernel needs > 5 min for the 5494 idle polls behind `run2`; the
+kernel-checked instance is the one of `C17_request_loop_direct_closed_partial` above.)  In order:
+`Hb` — `_begin(0o5)` on `run3` is `.ok ()`, address attribute 0o5, ID 7; `Hc` — `lookup_node_id(0o5)`
+on `run4` is `.ok 7`; the theorem's conclusion — `_request_address(0)` on `joinEx` is `.ok true`; and
+the full call — `renew_address(1500)` on `joinEx` is `.ok (some 0o5)` with the master's table
+`[(7, 0o5)]`. -/
+#guard isOkUnit (Nrf.Net.nexec (begin 5) run3).1 && run4.node.a.addr == 5 && run4.node.nodeId == 7
+#guard isOkInt 7 (Nrf.Net.nexec (meshLookupNodeId (some ((5 : Nat) : Int))) run4).1
+#guard (match (Nrf.Net.nexec (requestAddress 0) joinEx).1 with | .ok true => true | _ => false)
+#guard (match Nrf.Net.nexec (meshRenew 1500) joinEx with
+  | (.ok (some 5), s') => (s'.nodeAt 0).dhcp == [(7, 5)] && s'.node.a.addr == 5 | _ => false)
 
 end Nrf.Props.C17
